@@ -5,7 +5,8 @@
 (* Anchors: src/plumpy/persistence.py (auto_persist, Savable.auto_persist, Savable.save,           *)
 (* save_instance_state, save_members, Savable.load, _ensure_object_loader, get/set_custom_meta,    *)
 (* _get_class_name, recreate_from, load_members, _get_value, SavableFuture.save_instance_state,    *)
-(* SavableFuture.recreate_from), src/plumpy/loaders.py (DefaultObjectLoader, get/set_object_loader).*)
+(* SavableFuture.recreate_from, Savable.persist / _ensure_persist_configured),                     *)
+(* src/plumpy/loaders.py (DefaultObjectLoader, get/set_object_loader).                             *)
 (*                                                                                                 *)
 (* Two formulations.                                                                               *)
 (*   OPERATIONAL: python objects live in a heap (a sequence of uniform entries: objects, futures,  *)
@@ -30,6 +31,10 @@ CONSTANTS
   Kinds,     \* member kinds on offer
   Loaders,   \* loader configurations on offer
   Unknowns,  \* ways of making a class name unknown (besides "none")
+  Ways,      \* how a class of the chain may declare members: "deco" (@auto_persist), "hook" (persist() classmethod calling
+             \* cls.auto_persist), besides declaring nothing
+  Orders,    \* which OTHER class of the chain may be used (an instance saved and loaded) before the instance under test:
+             \* "parent" (an ancestor), "child" (a descendant), besides none
   Fixes,     \* repairs contained in the implementation under test
   Known,     \* deviation identifiers of listed known findings (excused)
   Detail,    \* TRUE: `out` carries the facts about the loaded object (for conformance); FALSE: only the verdicts
@@ -38,10 +43,11 @@ CONSTANTS
 VARIABLES phase, inst, out
 vars == <<phase, inst, out>>
 
-AllKinds    == {"value", "none", "method", "sav1", "sav2", "futP", "futR", "futE", "futC"}
+AllKinds    == {"value", "none", "method", "tuple", "sav1", "sav2", "futP", "futR", "futT", "futE", "futC"}
 AllLoaders  == {"default", "global", "persave", "ctxboth"}
 AllUnknowns == {"noattr", "malformed", "nocls", "nometa", "nested"}
 ASSUME Names \subseteq {"a", "b", "c"} /\ Kinds \subseteq AllKinds /\ Loaders \subseteq AllLoaders /\ Unknowns \subseteq AllUnknowns
+ASSUME Ways \subseteq {"deco", "hook"} /\ Orders \subseteq {"parent", "child"}
 
 \* members of the chain classes, then members of the helper classes N1 (x, m) and N2 (x, s, f)
 NameOrder == <<"a", "b", "c", "x", "m", "s", "f">>
@@ -57,6 +63,7 @@ NoneV      == [k |-> "none",   v |-> "-", p |-> 0]
 Plain(p)   == [k |-> "plain",  v |-> "-", p |-> p]      \* a mutable plain value: reference to a cell
 Meth(n, p) == [k |-> "meth",   v |-> n,   p |-> p]      \* bound method n of object p
 Ref(p)     == [k |-> "ref",    v |-> "-", p |-> p]      \* reference to an object, future or dict
+Tup(p)     == [k |-> "tup",    v |-> "-", p |-> p]      \* a tuple (immutable itself) holding one mutable cell
 Str(s)     == [k |-> "str",    v |-> s,   p |-> 0]      \* an immutable string
 NoAttrs    == [n \in AllNames |-> Absent]
 
@@ -67,12 +74,13 @@ NoMeta     == [has |-> FALSE, cls |-> NoIdent, ldrTop |-> NoIdent, ldrUser |-> N
 
 \* t: "cell" (v = content) | "obj" (cls, attrs) | "fut" (v = _state, res = _result, e = exception) |
 \*    "dict" (a saved state: meta, attrs = members, v/res/e = '_state' / '_result' / 'exception' keys)
-Entry(t, cls, v) == [t |-> t, cls |-> cls, v |-> v, e |-> "-", res |-> Absent, attrs |-> NoAttrs, meta |-> NoMeta]
+\*    conf = the INSTANCE attribute _persist_configured
+Entry(t, cls, v) == [t |-> t, cls |-> cls, v |-> v, e |-> "-", res |-> Absent, attrs |-> NoAttrs, meta |-> NoMeta, conf |-> FALSE]
 Cell(h, content) == Append(h, Entry("cell", "-", content))
 
-\* results of python calls: heap, returned id, exception class name, deviation clauses gone through
-R(h, r, dev)   == [h |-> h, r |-> r, exc |-> "-", dev |-> dev]
-Err(h, e, dev) == [h |-> h, r |-> 0, exc |-> e, dev |-> dev]
+\* results of python calls: heap, class attributes, returned id, exception class name, deviation clauses gone through
+R(h, st, r, dev)   == [h |-> h, st |-> st, r |-> r, exc |-> "-", dev |-> dev]
+Err(h, st, e, dev) == [h |-> h, st |-> st, r |-> 0, exc |-> e, dev |-> dev]
 
 (* ----------------------------------------------------------------------------------------------- *)
 (* auto_persist: the class attribute `_auto_persist` (set objects have identity)                  *)
@@ -82,29 +90,64 @@ Err(h, e, dev) == [h |-> h, r |-> 0, exc |-> e, dev |-> dev]
 RECURSIVE Lookup(_, _)
 Lookup(own, i) == IF i = 0 THEN 0 ELSE IF own[i] # 0 THEN own[i] ELSE Lookup(own, i - 1)
 
-Decorate(st, i, members) ==                \* auto_persist(*members)(cls_i)
+\* Savable.auto_persist(cls_i, *members), the classmethod -> [st, dev]
+\*   if cls._auto_persist is None: cls._auto_persist = set()
+\*   cls._auto_persist.update(members)
+\* As written the update goes to whatever set object the attribute lookup finds: when class i has no set of its own
+\* (no decorator) but an ancestor has one, the ANCESTOR's set is changed (deviation D19d).
+AutoPersistCM(st, i, members) ==
+  LET cur  == Lookup(st.own, i)
+      mine == st.own[i] # 0
+      st1  == IF cur = 0 THEN [own |-> [st.own EXCEPT ![i] = Len(st.sets) + 1], sets |-> Append(st.sets, {})]
+              ELSE IF ~mine /\ "FH1" \in Fixes                         \* repaired: a class gets its own copy first
+                   THEN [own |-> [st.own EXCEPT ![i] = Len(st.sets) + 1], sets |-> Append(st.sets, st.sets[cur])]
+              ELSE st
+      tgt  == Lookup(st1.own, i)
+      leak == st1.own[i] = 0 /\ ~(members \subseteq st1.sets[tgt])
+  IN [st |-> [st1 EXCEPT !.sets[tgt] = @ \cup members], dev |-> IF leak THEN {"D19d"} ELSE {}]
+
+Decorate(st, i, members) ==                \* auto_persist(*members)(cls_i), the decorator
   LET cur == Lookup(st.own, i)
       new == IF cur = 0 THEN {} ELSE st.sets[cur]        \* set()  |  set(savable._auto_persist): a NEW set object
       st1 == [own |-> [st.own EXCEPT ![i] = Len(st.sets) + 1], sets |-> Append(st.sets, new)]
-      tgt == Lookup(st1.own, i)                          \* Savable.auto_persist: cls._auto_persist ...
-  IN [st1 EXCEPT !.sets[tgt] = @ \cup members]           \* ... .update(members)
+  IN AutoPersistCM(st1, i, members).st                   \* savable.auto_persist(*members)
 
 RECURSIVE DefineClasses(_, _, _)
 DefineClasses(ch, i, st) ==
   IF i > Len(ch) THEN st
-  ELSE DefineClasses(ch, i + 1, IF ch[i].deco THEN Decorate(st, i, ch[i].names) ELSE st)
+  ELSE DefineClasses(ch, i + 1, IF ch[i].way = "deco" THEN Decorate(st, i, ch[i].names) ELSE st)
+\* the class attributes once the chain is defined (decorators run at definition time, hooks at first use)
 ClassStore(ch) == DefineClasses(ch, 1, [own |-> [j \in 1..Len(ch) |-> 0], sets |-> <<>>])
 
-\* load/save_instance_state: `if self._auto_persist is not None: ...members(self._auto_persist, ...)`
-PersistedOp(ch, t) == LET st == ClassStore(ch)  idx == Lookup(st.own, t) IN IF idx = 0 THEN {} ELSE st.sets[idx]
-\* DECLARATIVE: a class persists what it and its ancestors declared
-PersistedDecl(ch, t) == UNION {ch[j].names : j \in {k \in 1..t : ch[k].deco}}
+\* self.persist() for an instance of class i: the hook of the nearest class that has one; each hook is
+\*     @classmethod
+\*     def persist(cls): super().persist(); cls.auto_persist(*names)
+\* so the hooks of the ancestors run first, all of them with cls = class i
+RECURSIVE RunHooks(_, _, _, _, _)
+RunHooks(ch, st, i, j, dev) ==
+  IF j > i THEN [st |-> st, dev |-> dev]
+  ELSE IF ch[j].way = "hook" THEN LET r == AutoPersistCM(st, i, ch[j].names) IN RunHooks(ch, r.st, i, j + 1, dev \cup r.dev)
+  ELSE RunHooks(ch, st, i, j + 1, dev)
 
 ChainClass(t) == "K" \o ToString(t)
-\* class table of an instance: class name -> persisted member set
-ClassTable(ch) == [c \in {ChainClass(t) : t \in 1..Len(ch)} \cup {"N1", "N2"} |->
-                     CASE c = "N1" -> {"x", "m"} [] c = "N2" -> {"x", "s", "f"}
-                       [] OTHER -> PersistedOp(ch, CHOOSE t \in 1..Len(ch) : ChainClass(t) = c)]
+ChainIdx(ch, c) == IF c \in {ChainClass(t) : t \in 1..Len(ch)} THEN CHOOSE t \in 1..Len(ch) : ChainClass(t) = c ELSE 0
+\* Savable._ensure_persist_configured(self): `if not self._persist_configured: self.persist(); self._persist_configured = True`
+\* (an INSTANCE attribute: every instance runs the hook once, at its first save or load)  -> [h, st, dev]
+EnsureConfigured(h, st, ch, oid) ==
+  IF h[oid].conf THEN [h |-> h, st |-> st, dev |-> {}]
+  ELSE LET i == ChainIdx(ch, h[oid].cls)
+           r == IF i = 0 THEN [st |-> st, dev |-> {}] ELSE RunHooks(ch, st, i, 1, {})       \* N1, N2: Savable.persist is `pass`
+       IN [h |-> [h EXCEPT ![oid].conf = TRUE], st |-> r.st, dev |-> r.dev]
+
+\* `if self._auto_persist is not None: ...members(self._auto_persist, ...)`: the set the attribute lookup finds NOW
+PersistedNow(st, ch, c) ==
+  CASE c = "N1" -> {"x", "m"} [] c = "N2" -> {"x", "s", "f"}
+    [] OTHER -> LET idx == Lookup(st.own, ChainIdx(ch, c)) IN IF idx = 0 THEN {} ELSE st.sets[idx]
+PersistedOp(ch, t) == PersistedNow(ClassStore(ch), ch, ChainClass(t))
+\* DECLARATIVE: a class persists what it and its ancestors declared, by decorator or by hook
+PersistedDecl(ch, t) == UNION {ch[j].names : j \in 1..t}
+DecoratedDecl(ch, t) == UNION {ch[j].names : j \in {k \in 1..t : ch[k].way = "deco"}}
+ClassNames(ch) == {ChainClass(t) : t \in 1..Len(ch)} \cup {"N1", "N2"}
 
 (* ----------------------------------------------------------------------------------------------- *)
 (* object loaders                                                                                  *)
@@ -113,7 +156,7 @@ ClassTable(ch) == [c \in {ChainClass(t) : t \in 1..Len(ch)} \cup {"N1", "N2"} |-
 \* disjoint identifier scheme), "class:CustomLoader" the custom loader CLASS (not an instance), "none"
 Scheme(l) == IF l = "D" THEN "D" ELSE "C"
 Identify(l, cls) == <<Scheme(l), cls>>                         \* ObjectLoader.identify_object
-Loadable(ct) == DOMAIN ct \cup {"SavableFuture", "CustomLoader"}
+Loadable(ct) == ct \cup {"SavableFuture", "CustomLoader"}
 LoadObject(l, ident, ct) ==                                    \* ObjectLoader.load_object -> [cls, exc]
   IF l \notin {"D", "C"} THEN [cls |-> "-", exc |-> "TypeError"]      \* unbound method called on the class
   ELSE IF ident[1] = Scheme(l) /\ ident[2] \in Loadable(ct) THEN [cls |-> ident[2], exc |-> "-"]
@@ -138,6 +181,8 @@ NewFut(h, kind, path) ==                   \* SavableFuture(), then set_result /
       f  == [Entry("fut", "SavableFuture", st) EXCEPT !.e = IF kind = "futE" THEN "E1" ELSE "-", !.res = NoneV]
   IN IF kind = "futR"
      THEN [h |-> Cell(Append(h, [f EXCEPT !.res = Plain(id + 1)]), "v:" \o path \o ".result"), id |-> id]
+     ELSE IF kind = "futT"                                   \* the result is a tuple holding a mutable cell
+     THEN [h |-> Cell(Append(h, [f EXCEPT !.res = Tup(id + 1)]), "v:" \o path \o ".result[0]"), id |-> id]
      ELSE [h |-> Append(h, f), id |-> id]
 
 NewN2(h, path) ==                          \* N2(): self.x = <plain>; self.s = N1(); self.f = <future with a result>
@@ -152,6 +197,7 @@ Fill(h, root, names, kinds) ==
   IF names = <<>> THEN h
   ELSE LET n == Head(names)  k == kinds[n]  path == "o." \o n
            r == CASE k = "value"  -> [h |-> Cell(h, "v:" \o path), val |-> Plain(Len(h) + 1)]
+                  [] k = "tuple"  -> [h |-> Cell(h, "v:" \o path \o "[0]"), val |-> Tup(Len(h) + 1)]
                   [] k = "none"   -> [h |-> h, val |-> NoneV]
                   [] k = "method" -> [h |-> h, val |-> Meth("m_" \o n, root)]
                   [] k = "sav1"   -> LET x == NewN1(h, path) IN [h |-> x.h, val |-> Ref(x.id)]
@@ -159,48 +205,51 @@ Fill(h, root, names, kinds) ==
                   [] OTHER        -> LET x == NewFut(h, k, path) IN [h |-> x.h, val |-> Ref(x.id)]
        IN Fill([r.h EXCEPT ![root].attrs[n] = r.val], root, Tail(names), kinds)
 \* every name on offer is an attribute of the original, persisted or not; the object is id 1
-Build(i) == Fill(<<Entry("obj", ChainClass(i.t), "-")>>, 1, InOrder(Names), i.kinds)
+BuildOf(t, kinds) == Fill(<<Entry("obj", ChainClass(t), "-")>>, 1, InOrder(Names), kinds)
+Build(i) == BuildOf(i.t, i.kinds)
 
 (* ----------------------------------------------------------------------------------------------- *)
 (* OPERATIONAL: Savable.save                                                                       *)
 (* ----------------------------------------------------------------------------------------------- *)
-\* copy.deepcopy of a member value (value domain: None, strings, one mutable cell)
-DeepCopy(h, val) == IF val.k = "plain" THEN [h |-> Cell(h, h[val.p].v), val |-> Plain(Len(h) + 1)] ELSE [h |-> h, val |-> val]
+\* copy.deepcopy of a member value (value domain: None, strings, one mutable cell, a tuple holding one mutable cell):
+\* every mutable cell, also one inside a tuple, is a NEW cell
+DeepCopy(h, val) == IF val.k \in {"plain", "tup"} THEN [h |-> Cell(h, h[val.p].v), val |-> [val EXCEPT !.p = Len(h) + 1]]
+                    ELSE [h |-> h, val |-> val]
 
-RECURSIVE SaveAny(_, _, _, _, _), SaveMembers(_, _, _, _, _, _, _, _)
+RECURSIVE SaveAny(_, _, _, _, _, _), SaveMembers(_, _, _, _, _, _, _, _, _)
 
-\* Savable.save_members (the loop; `did` is out_state)
-SaveMembers(h, oid, did, names, sctx, G, ct, dev) ==
-  IF names = <<>> THEN R(h, did, dev)
+\* Savable.save_members (the loop; `did` is out_state); ch = the chain (the classes that exist)
+SaveMembers(h, st, oid, did, names, sctx, G, ch, dev) ==
+  IF names = <<>> THEN R(h, st, did, dev)
   ELSE LET m == Head(names)  val == h[oid].attrs[m]  rest == Tail(names) IN
-    IF val.k = "absent" THEN Err(h, "AttributeError", dev)                       \* getattr(self, member)
+    IF val.k = "absent" THEN Err(h, st, "AttributeError", dev)                   \* getattr(self, member)
     ELSE IF val.k = "meth" THEN                                                  \* inspect.ismethod(value)
-      IF val.p # oid THEN Err(h, "TypeError", dev)                               \* method of another object
+      IF val.p # oid THEN Err(h, st, "TypeError", dev)                           \* method of another object
       ELSE SaveMembers([h EXCEPT ![did].meta.has = TRUE, ![did].meta.types[m] = "m", ![did].attrs[m] = Str(val.v)],
-                       oid, did, rest, sctx, G, ct, dev)
-    ELSE IF val.k = "ref" THEN                                                   \* isinstance(value, Savable): value.save()
+                       st, oid, did, rest, sctx, G, ch, dev)
+    ELSE IF val.k = "ref" THEN                                                   \* isinstance(value, Savable): value.save(...)
       \* as written the nested object is saved WITHOUT the save context: its class name comes from the global loader
       LET inner == IF "FL3" \in Fixes THEN sctx ELSE "none"
           d1    == IF "FL3" \notin Fixes /\ sctx # "none" /\ sctx # G THEN dev \cup {"D19b"} ELSE dev
-          n     == SaveAny(h, val.p, inner, G, ct)
-      IN IF n.exc # "-" THEN Err(n.h, n.exc, d1 \cup n.dev)
+          n     == SaveAny(h, st, val.p, inner, G, ch)
+      IN IF n.exc # "-" THEN Err(n.h, n.st, n.exc, d1 \cup n.dev)
          ELSE SaveMembers([n.h EXCEPT ![did].meta.has = TRUE, ![did].meta.types[m] = "S", ![did].attrs[m] = Ref(n.r)],
-                          oid, did, rest, sctx, G, ct, d1 \cup n.dev)
+                          n.st, oid, did, rest, sctx, G, ch, d1 \cup n.dev)
     ELSE LET c == DeepCopy(h, val) IN                                            \* copy.deepcopy(value)
-         SaveMembers([c.h EXCEPT ![did].attrs[m] = c.val], oid, did, rest, sctx, G, ct, dev)
+         SaveMembers([c.h EXCEPT ![did].attrs[m] = c.val], st, oid, did, rest, sctx, G, ch, dev)
 
 \* SavableFuture.save_instance_state: auto-persisted '_state' and '_result', then the exception
-SaveFuture(h, fid, did, dev) ==
+SaveFuture(h, st, fid, did, dev) ==
   LET f  == h[fid]
       c  == DeepCopy(h, f.res)
       h1 == [c.h EXCEPT ![did].v = f.v, ![did].res = c.val]
   IN IF f.v = "CANCELLED" /\ "FFC" \notin Fixes
-     THEN Err(h1, "CancelledError", dev \cup {"D19c"})        \* `self.done() and self.exception() is not None`: exception() raises
-     ELSE IF f.v = "FINISHED" /\ f.e # "-" THEN R([h1 EXCEPT ![did].e = f.e], did, dev)     \* the exception object itself (not copied)
-     ELSE R(h1, did, dev)
+     THEN Err(h1, st, "CancelledError", dev \cup {"D19c"})   \* `self.done() and self.exception() is not None`: exception() raises
+     ELSE IF f.v = "FINISHED" /\ f.e # "-" THEN R([h1 EXCEPT ![did].e = f.e], st, did, dev)     \* the exception object itself (not copied)
+     ELSE R(h1, st, did, dev)
 
 \* Savable.save(self, save_context); sctx = save_context.loader or "none"; G = loaders.get_object_loader()
-SaveAny(h, oid, sctx, G, ct) ==
+SaveAny(h, st, oid, sctx, G, ch) ==
   LET o      == h[oid]
       did    == Len(h) + 1
       \* `if save_context.loader is not None: set_custom_meta(out_state, 'object_loader', default.identify_object(loader class))`
@@ -208,8 +257,10 @@ SaveAny(h, oid, sctx, G, ct) ==
       loader == IF sctx # "none" THEN sctx ELSE G
       meta   == [NoMeta EXCEPT !.has = TRUE, !.ldrUser = user, !.cls = Identify(loader, o.cls)]     \* _set_class_name
       h1     == Append(h, [Entry("dict", "-", "-") EXCEPT !.meta = meta])
-  IN IF o.t = "fut" THEN SaveFuture(h1, oid, did, {})
-     ELSE SaveMembers(h1, oid, did, InOrder(ct[o.cls]), sctx, G, ct, {})
+  IN IF o.t = "fut" THEN SaveFuture(h1, st, oid, did, {})
+     ELSE \* save_instance_state: self._ensure_persist_configured(); save_members(self._auto_persist, ...)
+          LET e == EnsureConfigured(h1, st, ch, oid) IN
+          SaveMembers(e.h, e.st, oid, did, InOrder(PersistedNow(e.st, ch, o.cls)), sctx, G, ch, e.dev)
 
 (* ----------------------------------------------------------------------------------------------- *)
 (* OPERATIONAL: Savable.load                                                                       *)
@@ -228,47 +279,52 @@ EnsureLoader(d, lctx, G, ct) ==
                ELSE IF "FL2" \in Fixes THEN [ldr |-> "C", exc |-> "-", dev |-> dv]            \* an instance of that class
                ELSE [ldr |-> "class:" \o c.cls, exc |-> "-", dev |-> dv \cup {"D19a"}]        \* as written: the class itself
 
-RECURSIVE LoadAny(_, _, _, _, _), LoadMembers(_, _, _, _, _, _, _, _)
+RECURSIVE LoadAny(_, _, _, _, _, _), LoadMembers(_, _, _, _, _, _, _, _, _)
+LR(h, st, r, exc, dev, used) == [h |-> h, st |-> st, r |-> r, exc |-> exc, dev |-> dev, used |-> used]
 
 \* Savable.load_members / _get_value
-LoadMembers(h, nid, sid, names, ldr, G, ct, dev) ==
-  IF names = <<>> THEN [h |-> h, r |-> nid, exc |-> "-", dev |-> dev, used |-> ldr]
+LoadMembers(h, st, nid, sid, names, ldr, G, ch, dev) ==
+  IF names = <<>> THEN LR(h, st, nid, "-", dev, ldr)
   ELSE LET m == Head(names)  val == h[sid].attrs[m]  rest == Tail(names)
            typ == IF h[sid].meta.has THEN h[sid].meta.types[m] ELSE "-"        \* _get_meta_type: KeyError -> None
-       IN IF val.k = "absent" THEN [h |-> h, r |-> 0, exc |-> "KeyError", dev |-> dev, used |-> ldr]      \* saved_state[name]
+       IN IF val.k = "absent" THEN LR(h, st, 0, "KeyError", dev, ldr)            \* saved_state[name]
           ELSE IF typ = "m" THEN                                                \* getattr(self, value): bound to the NEW object
-            LoadMembers([h EXCEPT ![nid].attrs[m] = Meth(val.v, nid)], nid, sid, rest, ldr, G, ct, dev)
+            LoadMembers([h EXCEPT ![nid].attrs[m] = Meth(val.v, nid)], st, nid, sid, rest, ldr, G, ch, dev)
           ELSE IF typ = "S" THEN                                                \* Savable.load(value, load_context)
-            LET n == LoadAny(h, val.p, ldr, G, ct) IN
-            IF n.exc # "-" THEN [h |-> n.h, r |-> 0, exc |-> n.exc, dev |-> dev \cup n.dev, used |-> ldr]
-            ELSE LoadMembers([n.h EXCEPT ![nid].attrs[m] = Ref(n.r)], nid, sid, rest, ldr, G, ct, dev \cup n.dev)
-          ELSE LoadMembers([h EXCEPT ![nid].attrs[m] = val], nid, sid, rest, ldr, G, ct, dev)     \* the saved value itself
+            LET n == LoadAny(h, st, val.p, ldr, G, ch) IN
+            IF n.exc # "-" THEN LR(n.h, n.st, 0, n.exc, dev \cup n.dev, ldr)
+            ELSE LoadMembers([n.h EXCEPT ![nid].attrs[m] = Ref(n.r)], n.st, nid, sid, rest, ldr, G, ch, dev \cup n.dev)
+          ELSE LoadMembers([h EXCEPT ![nid].attrs[m] = val], st, nid, sid, rest, ldr, G, ch, dev)     \* the saved value itself
 
 \* SavableFuture.recreate_from
-RecreateFuture(h, sid, ldr, dev) ==
+RecreateFuture(h, st, sid, ldr, dev) ==
   LET d  == h[sid]
       id == Len(h) + 1
       f  == Entry("fut", "SavableFuture", d.v)
       g  == CASE d.v = "FINISHED" /\ d.e # "-" -> [f EXCEPT !.e = d.e, !.res = NoneV]       \* set_exception(saved_state['exception'])
               [] d.v = "FINISHED"              -> [f EXCEPT !.res = d.res]                  \* set_result(saved_state['_result'])
               [] OTHER                         -> [f EXCEPT !.res = NoneV]                  \* pending | cancel()
-  IN [h |-> Append(h, g), r |-> id, exc |-> "-", dev |-> dev, used |-> ldr]
+  IN LR(Append(h, g), st, id, "-", dev, ldr)
 
-\* Savable.load(saved_state, load_context); lctx = load_context.loader or "none" -> [h, r, exc, dev, used]
+\* Savable.load(saved_state, load_context); lctx = load_context.loader or "none" -> [h, st, r, exc, dev, used]
 \* used = the loader whose load_object resolved (or tried to resolve) the class name of this saved state
-LoadAny(h, sid, lctx, G, ct) ==
+LoadAny(h, st, sid, lctx, G, ch) ==
   LET d  == h[sid]
+      ct == ClassNames(ch)
       en == EnsureLoader(d, lctx, G, ct)
-  IN IF en.exc # "-" THEN [h |-> h, r |-> 0, exc |-> en.exc, dev |-> en.dev, used |-> "none"]
+  IN IF en.exc # "-" THEN LR(h, st, 0, en.exc, en.dev, "none")
      ELSE LET h1 == [h EXCEPT ![sid].meta.has = TRUE] IN        \* _get_class_name -> _get_create_meta: setdefault('!!meta', {})
           IF d.meta.cls = NoIdent \/ ~d.meta.has
-          THEN [h |-> h1, r |-> 0, exc |-> "ValueError", dev |-> en.dev, used |-> "none"]     \* KeyError -> 'Class name not found'
+          THEN LR(h1, st, 0, "ValueError", en.dev, "none")       \* KeyError -> 'Class name not found'
           ELSE LET c == LoadObject(en.ldr, d.meta.cls, ct) IN   \* load_context.loader.load_object(class_name)
-               IF c.exc # "-" THEN [h |-> h1, r |-> 0, exc |-> c.exc, dev |-> en.dev, used |-> en.ldr]
-               ELSE IF c.cls = "SavableFuture" THEN RecreateFuture(h1, sid, en.ldr, en.dev)
-               ELSE IF c.cls \notin DOMAIN ct THEN [h |-> h1, r |-> 0, exc |-> "AttributeError", dev |-> en.dev, used |-> en.ldr]
-               ELSE \* Savable.recreate_from: cls.__new__(cls); load_instance_state -> load_members(self._auto_persist, ...)
-                    LoadMembers(Append(h1, Entry("obj", c.cls, "-")), Len(h1) + 1, sid, InOrder(ct[c.cls]), en.ldr, G, ct, en.dev)
+               IF c.exc # "-" THEN LR(h1, st, 0, c.exc, en.dev, en.ldr)
+               ELSE IF c.cls = "SavableFuture" THEN RecreateFuture(h1, st, sid, en.ldr, en.dev)
+               ELSE IF c.cls \notin ct THEN LR(h1, st, 0, "AttributeError", en.dev, en.ldr)
+               ELSE \* Savable.recreate_from: cls.__new__(cls); load_instance_state: self._ensure_persist_configured();
+                    \* load_members(self._auto_persist, ...)
+                    LET nid == Len(h1) + 1
+                        e   == EnsureConfigured(Append(h1, Entry("obj", c.cls, "-")), st, ch, nid)
+                    IN LoadMembers(e.h, e.st, nid, sid, InOrder(PersistedNow(e.st, ch, c.cls)), en.ldr, G, ch, en.dev \cup e.dev)
 
 (* ----------------------------------------------------------------------------------------------- *)
 (* descriptions: sets of <<path, kind, detail>> (all strings, so that any two are comparable)      *)
@@ -291,14 +347,15 @@ ValFacts(h, holder, val, path, avoid) ==
     [] val.k = "str"    -> {<<path, "str", val.v>>}
     [] val.k = "meth"   -> {<<path, "meth", val.v \o (IF val.p = holder THEN "@self" ELSE "@other")>>}
     [] val.k = "plain"  -> Facts(h, val.p, path, avoid, {})
+    [] val.k = "tup"    -> {<<path, "tuple", "-">>} \cup Facts(h, val.p, path \o "[0]", avoid, {})
     [] OTHER            -> Facts(h, val.p, path, avoid, Present(h[val.p]))
 
 \* everything an object holds (methods excluded: what they are bound to is part of Facts)
 RECURSIVE Reach(_, _)
 Reach(h, id) ==
   LET e == h[id]
-      ps == {e.attrs[n].p : n \in {m \in AllNames : e.attrs[m].k \in {"plain", "ref"}}}
-            \cup (IF e.res.k \in {"plain", "ref"} THEN {e.res.p} ELSE {})
+      ps == {e.attrs[n].p : n \in {m \in AllNames : e.attrs[m].k \in {"plain", "ref", "tup"}}}
+            \cup (IF e.res.k \in {"plain", "ref", "tup"} THEN {e.res.p} ELSE {})
   IN {id} \cup UNION {Reach(h, p) : p \in ps}
 
 \* a saved state as facts (second save = first save; the saved state does not change under mutation of the original)
@@ -307,6 +364,7 @@ RECURSIVE DictFacts(_, _, _)
 DictVal(h, val, path) ==
   CASE val.k = "absent" -> {}
     [] val.k = "plain"  -> {<<path, "plain", h[val.p].v>>}
+    [] val.k = "tup"    -> {<<path, "tuple", h[val.p].v>>}
     [] val.k = "ref"    -> DictFacts(h, val.p, path)
     [] OTHER            -> {<<path, val.k, val.v>>}
 DictFacts(h, id, path) ==
@@ -352,16 +410,25 @@ Run(i) ==
   LET G    == Global(i.ldr)
       sctx == SaveCtx(i.ldr)
       lctx == LoadCtx(i.ldr)
-      ct   == ClassTable(i.chain)
+      ch   == i.chain
+      st0  == ClassStore(ch)
+      \* order of use: an instance of ANOTHER class of the chain (all its members plain values) is saved and loaded first
+      hp   == BuildOf(i.first, [n \in Names |-> "value"])
+      ps   == SaveAny(hp, st0, 1, sctx, G, ch)
+      pl   == LoadAny(ps.h, ps.st, ps.r, lctx, G, ch)
+      pre  == IF i.first = 0 THEN [st |-> st0, exc |-> "-", dev |-> {}]
+              ELSE IF ps.exc # "-" THEN [st |-> ps.st, exc |-> ps.exc, dev |-> ps.dev]
+              ELSE [st |-> pl.st, exc |-> pl.exc, dev |-> ps.dev \cup pl.dev]
       h0   == Build(i)
       orig == Reach(h0, 1)
-      s1   == SaveAny(h0, 1, sctx, G, ct)
+      s1   == SaveAny(h0, pre.st, 1, sctx, G, ch)
       ht   == Tamper(s1.h, s1.r, i.unk)
       hm   == Mutate(ht, orig)
-      none == [h |-> s1.h, r |-> 0, exc |-> "NotSaved", dev |-> {}, used |-> "none"]
-      ld   == IF s1.exc # "-" THEN none ELSE LoadAny(hm, s1.r, lctx, G, ct)      \* after the original moved on
-      ld0  == IF s1.exc # "-" THEN none ELSE LoadAny(ht, s1.r, lctx, G, ct)      \* had it not moved on
-      s2   == SaveAny(ld.h, ld.r, sctx, G, ct)
+      none == [h |-> s1.h, st |-> s1.st, r |-> 0, exc |-> "NotSaved", dev |-> {}, used |-> "none"]
+      ld   == IF s1.exc # "-" THEN none ELSE LoadAny(hm, s1.st, s1.r, lctx, G, ch)      \* after the original moved on
+      ld0  == IF s1.exc # "-" THEN none ELSE LoadAny(ht, s1.st, s1.r, lctx, G, ch)      \* had it not moved on
+      s2   == SaveAny(ld.h, ld.st, ld.r, sctx, G, ch)
+      stEnd == IF s1.exc # "-" THEN s1.st ELSE IF ld.exc # "-" THEN ld.st ELSE s2.st
       facts  == IF ld.exc = "-" THEN Facts(ld.h, ld.r, "o", orig, Present(ld.h[ld.r])) ELSE {}
       facts0 == IF ld0.exc = "-" THEN Facts(ld0.h, ld0.r, "o", orig, Present(ld0.h[ld0.r])) ELSE {}
       stage == IF s1.exc # "-" THEN "save" ELSE IF ld.exc # "-" THEN "load" ELSE IF s2.exc # "-" THEN "resave" ELSE "ok"
@@ -378,34 +445,41 @@ Run(i) ==
         NestedRecreated |-> known => (stage = "ok" /\ OfKind(facts, {"obj", "dict", "shared"}) = OfKind(want, {"obj", "dict", "shared"})),
         FutureState     |-> known => (stage = "ok" /\ OfKind(facts, {"fut", "exc"}) = OfKind(want, {"fut", "exc"})),
         LoaderPrecedence |-> (s1.exc = "-" /\ ld.used # "none") => ld.used = ExpectedLoader(i),
+        \* using one class never adds members to another: no class ends up persisting more than it and its ancestors declared
+        SetsIntact      |-> \A t \in 1..Len(ch) : PersistedNow(stEnd, ch, ChainClass(t)) \subseteq PersistedDecl(ch, t),
         UnknownIsValueError |-> (~known /\ s1.exc = "-") => (stage = "load" /\ exc = "ValueError")]
-  IN [stage |-> stage, exc |-> exc,
+  IN [stage |-> stage, exc |-> exc, pre |-> pre.exc,
       facts |-> IF Detail THEN facts ELSE {},
       resave |-> resave, stable |-> stable,
       used |-> IF s1.exc = "-" THEN ld.used ELSE "none",
-      dev |-> s1.dev \cup (IF s1.exc = "-" THEN ld.dev \cup (IF ld.exc = "-" THEN s2.dev ELSE {}) ELSE {}),
+      dev |-> pre.dev \cup s1.dev \cup (IF s1.exc = "-" THEN ld.dev \cup (IF ld.exc = "-" THEN s2.dev ELSE {}) ELSE {}),
       \* the declarative properties that do NOT hold on this instance
       bad |-> {p \in DOMAIN props : ~props[p]}]
 
 (* ----------------------------------------------------------------------------------------------- *)
 (* the bounded universe                                                                            *)
 (* ----------------------------------------------------------------------------------------------- *)
-Decls  == {[deco |-> FALSE, names |-> {}]} \cup {[deco |-> TRUE, names |-> s] : s \in SUBSET Names}
+Decls  == {[way |-> "none", names |-> {}]}
+          \cup (IF "deco" \in Ways THEN {[way |-> "deco", names |-> s] : s \in SUBSET Names} ELSE {})
+          \cup (IF "hook" \in Ways THEN {[way |-> "hook", names |-> s] : s \in (SUBSET Names) \ {{}}} ELSE {})
 Chains == UNION {[1..n -> Decls] : n \in 1..MaxChain}
 \* names that are not persisted are plain attributes of the original
 KindsFor(ch, t) == {k \in [Names -> Kinds] : \A n \in Names \ PersistedDecl(ch, t) : k[n] = "value"}
-HasNested(ch, t, k) == \E n \in PersistedDecl(ch, t) : k[n] \notin {"value", "none", "method"}
+HasNested(ch, t, k) == \E n \in PersistedDecl(ch, t) : k[n] \notin {"value", "none", "method", "tuple"}
 \* unknown class names are tried on the one-class chain that persists every name
-UnknownsFor(ch, t, k) == {"none"} \cup (IF Len(ch) = 1 /\ ch[1].deco /\ ch[1].names = Names
+UnknownsFor(ch, t, k) == {"none"} \cup (IF Len(ch) = 1 /\ ch[1].way = "deco" /\ ch[1].names = Names
                                          THEN {u \in Unknowns : u = "nested" => HasNested(ch, t, k)} ELSE {})
+\* which other class of the chain is used first (0 = none)
+FirstsFor(ch, t) == {0} \cup {j \in 1..Len(ch) : (j < t /\ "parent" \in Orders) \/ (j > t /\ "child" \in Orders)}
 ASSUME OnlyChains \subseteq Chains
 
-\* the instances of a chain: which class is instantiated x member kinds x loader configuration x unknown-class flavour
-InstsOf(ch) == UNION {UNION {{[chain |-> ch, t |-> t, kinds |-> k, ldr |-> l, unk |-> u] : l \in Loaders, u \in UnknownsFor(ch, t, k)}
+\* the instances of a chain: which class is instantiated x member kinds x loader configuration x unknown-class flavour x order of use
+InstsOf(ch) == UNION {UNION {{[chain |-> ch, t |-> t, kinds |-> k, ldr |-> l, unk |-> u, first |-> f]
+                               : l \in Loaders, u \in UnknownsFor(ch, t, k), f \in FirstsFor(ch, t)}
                              : k \in KindsFor(ch, t)} : t \in 1..Len(ch)}
 
 NoOut  == [dev |-> {}, bad |-> {}]
-NoInst == [chain |-> <<>>, t |-> 0, kinds |-> [n \in Names |-> "value"], ldr |-> "default", unk |-> "none"]
+NoInst == [chain |-> <<>>, t |-> 0, kinds |-> [n \in Names |-> "value"], ldr |-> "default", unk |-> "none", first |-> 0]
 \* first the chain is chosen (one initial state per chain, so that TLC's workers share the universe), then the rest
 Init == /\ phase = "pick"
         /\ \E ch \in (IF OnlyChains # {} THEN OnlyChains ELSE Chains) : inst = [NoInst EXCEPT !.chain = ch]
@@ -428,8 +502,9 @@ C19_NestedRecreated     == Checked => "NestedRecreated" \notin out.bad
 C19_FutureState         == Checked => "FutureState" \notin out.bad
 C19_LoaderPrecedence    == Checked => "LoaderPrecedence" \notin out.bad
 C19_UnknownIsValueError == Checked => "UnknownIsValueError" \notin out.bad
+C19_SetsIntact          == Checked => "SetsIntact" \notin out.bad
 \* a violation of the property is never silent: it is explained by a deviation clause of the specification
 C19_Explained           == phase = "done" => (out.bad = {} \/ out.dev # {})
-\* the two formulations of auto_persist inheritance agree (a subclass never changes its parent's set)
-C19_AutoPersist == \A t \in 1..Len(inst.chain) : PersistedOp(inst.chain, t) = PersistedDecl(inst.chain, t)
+\* at definition time (decorators only; hooks have not run) the two formulations of auto_persist inheritance agree
+C19_AutoPersist == \A t \in 1..Len(inst.chain) : PersistedOp(inst.chain, t) = DecoratedDecl(inst.chain, t)
 =============================================================================
